@@ -59,6 +59,12 @@ def generate(rng, tier):
     args = gen.fmt_args(fmts + ([rng.choice(fmts)] if rng.random() < 0.15 else []))  # sometimes a format is named twice
     if rng.random() < (0.5 if nested else 0.25):
         args += ["-i", rng.choice(["*.xml", "notes", "z9", "sub/", "d1", "*.jpg"])]
+        dirs0 = gen.tree_dirs(tree)
+        if dirs0 and rng.random() < 0.3:
+            # a later negated pattern re-includes what an earlier one excluded (the last matching pattern decides)
+            d0 = rng.choice(dirs0)
+            args += ["-i", rng.choice(["*.bin", "*.mov", "*.dat", "*.*", "many*"]), "-i",
+                     rng.choice(["!" + os.path.basename(d0), "!" + os.path.basename(d0) + "/", "!/" + d0, "!" + d0 + "/*.bin"])]
     ops.append(scen.cmd("create", "@R", *args))
     co = ["verify", "@R", "-dh", "-co"]
     if rng.random() < 0.6:
